@@ -105,6 +105,7 @@ structure SemOnly (P : PSt → Prop) : Prop where
   rel : ∀ st tag sz e, P st → P (relTag st tag sz e)
   log : ∀ st tr hi, P st → P { st with trace := tr, highest := hi }
   buf : ∀ st b lm, P st → P { st with buf := b, lams := lm }
+  mark : ∀ st it, P st → P (mark st it)
 
 /-- `process()` after the `HighestLamport()` call -/
 def st1Of (st : PSt) : PSt := { st with trace := .highest :: st.trace }
@@ -115,16 +116,17 @@ def st2Of (st : PSt) (it : Item) : PSt :=
 
 theorem handle_eq (cfg : Cfg) (O : Oracle) (st : PSt) (it : Item) (err : Nat) :
     handle cfg O st it err =
-      if err != 0 then (relTag st it.tag it.ev.size err, [])
+      if err != 0 then (relTag (mark st it) it.tag it.ev.size err, [])
       else if Gen.Buffer.farFuture it.lamport st.highest (Gen.Buffer.maxLamportDiff cfg.bufNum) then
-        (relTag (st1Of st) it.tag it.ev.size errSpilled, [])
+        (relTag (st1Of (mark st it)) it.tag it.ev.size errSpilled, [])
       else
-        (absorb (pushEvent true O cfg.bufNum cfg.bufSize (st2Of st it).buf it.ev it.tag).1.recs
-            (added (st2Of st it).buf (pushEvent true O cfg.bufNum cfg.bufSize (st2Of st it).buf it.ev it.tag).1)
-            { st2Of st it with buf := (pushEvent true O cfg.bufNum cfg.bufSize (st2Of st it).buf it.ev it.tag).1,
-                               lams := (it.tag, it.lamport) :: (st2Of st it).lams },
+        (absorb (pushEvent true O cfg.bufNum cfg.bufSize (st2Of (mark st it) it).buf it.ev it.tag).1.recs
+            (added (st2Of (mark st it) it).buf (pushEvent true O cfg.bufNum cfg.bufSize (st2Of (mark st it) it).buf it.ev it.tag).1)
+            { st2Of (mark st it) it with
+                buf := (pushEvent true O cfg.bufNum cfg.bufSize (st2Of (mark st it) it).buf it.ev it.tag).1,
+                lams := (it.tag, it.lamport) :: (st2Of (mark st it) it).lams },
          if Gen.Buffer.reRequest it.lamport st.highest (Gen.Buffer.maxLamportDiff cfg.bufNum)
-              (pushEvent true O cfg.bufNum cfg.bufSize (st2Of st it).buf it.ev it.tag).2 then it.ev.parents else []) := rfl
+              (pushEvent true O cfg.bufNum cfg.bufSize (st2Of (mark st it) it).buf it.ev it.tag).2 then it.ev.parents else []) := rfl
 
 theorem st2Of_buf (st : PSt) (it : Item) : (st2Of st it).buf = st.buf := by
   unfold st2Of; split <;> rfl
@@ -132,8 +134,9 @@ theorem st2Of_buf (st : PSt) (it : Item) : (st2Of st it).buf = st.buf := by
 theorem handle_semOnly {P : PSt → Prop} (h : SemOnly P) (cfg : Cfg) (O : Oracle) (st : PSt) (it : Item) (e : Nat)
     (hp : P st) : P (handle cfg O st it e).1 := by
   rw [handle_eq]
-  have h1 : P (st1Of st) := h.log st _ st.highest hp
-  have h2 : P (st2Of st it) := by
+  have hp := h.mark st it hp
+  have h1 : P (st1Of (mark st it)) := h.log _ _ (mark st it).highest hp
+  have h2 : P (st2Of (mark st it) it) := by
     unfold st2Of
     split
     · exact h1
@@ -188,6 +191,7 @@ theorem semInv_semOnly (N S : Nat) : SemOnly (SemInv N S) where
         omega
   log := fun st tr hi h => h
   buf := fun st b lm h => h
+  mark := fun st it h => h
 
 theorem acquire_semInv (N S : Nat) (hN : N < 4294967296) (hS : S < 18446744073709551616) (st : PSt) (items : List Item)
     (hlen : items.length < 4294967296) (hsz : totalSize items < 18446744073709551616) (h : SemInv N S st)
@@ -288,6 +292,7 @@ theorem handle_buf (cfg : Cfg) (O : Oracle) (st : PSt) (it : Item) (e : Nat) :
     · right
       show (absorb _ _ _).buf = _
       rw [absorb_buf, st2Of_buf]
+      rfl
 
 theorem finish_buf (b : Batch) (st : PSt) : (finish b st).buf = st.buf := by
   unfold finish; split <;> rfl
